@@ -20,7 +20,7 @@ PROPERTIES = {
         "rule": HISTORY_RULE + "Non-trivial = an ICS-20-valid packet whose receiver decodes to the orbiter account; distinct by "
                 "(route, denom, amount class, recipient, fee count, dust present, outcome, receiver spelling, raw memo).",
         "assumptions": COMMON_ASSUMPTIONS,
-        "tests": [{"test": "TestC01History", "quick": 400, "thorough": 48000}],
+        "tests": [{"test": "TestC01History", "quick": 400, "thorough": 192000}],
     },
     "C02": {
         "level": "exploration",
@@ -28,7 +28,7 @@ PROPERTIES = {
                 "is compared with the reference model's expected delta; distinct by (route, denom, amount class, recipient, fee "
                 "count, dust present).",
         "assumptions": COMMON_ASSUMPTIONS,
-        "tests": [{"test": "TestC02History", "quick": 400, "thorough": 48000}],
+        "tests": [{"test": "TestC02History", "quick": 400, "thorough": 192000}],
     },
     "C03": {
         "level": "fault_enumeration",
@@ -44,8 +44,8 @@ PROPERTIES = {
         "assumptions": COMMON_ASSUMPTIONS + ["the LAB world duplicates the wiring of depinject.go (the wiring itself is exercised by the PROD-world checks)",
                                              "statistics failures are the one documented exception and are not a fault site"],
         "tests": [
-            {"test": "TestC03Faults", "quick": 60, "thorough": 4000},
-            {"test": "TestC03Natural", "quick": 600, "thorough": 40000},
+            {"test": "TestC03Faults", "quick": 60, "thorough": 16000},
+            {"test": "TestC03Natural", "quick": 600, "thorough": 160000},
         ],
     },
     "C04": {
@@ -60,8 +60,8 @@ PROPERTIES = {
                 "non-compounding (>= 2 bps entries), the entry count or values near 2^256 are decisive; distinct by (A, list).",
         "assumptions": COMMON_ASSUMPTIONS + ["don't-care regions: non-decimal integer spellings of fixed amounts ('+5','007','0x10'), A*bps needing more than 256 bits while the fee itself fits, fee recipient = orbiter account (acceptance only)"],
         "tests": [
-            {"test": "TestC04Direct", "quick": 20000, "thorough": 1600000},
-            {"test": "TestC04EndToEnd", "quick": 2500, "thorough": 200000},
+            {"test": "TestC04Direct", "quick": 20000, "thorough": 6400000},
+            {"test": "TestC04EndToEnd", "quick": 2500, "thorough": 800000},
         ],
     },
     "C05": {
@@ -79,10 +79,10 @@ PROPERTIES = {
                 "Non-trivial = a transfer whose request was recorded / a matrix cell / a replacement; distinct by case.",
         "assumptions": COMMON_ASSUMPTIONS + ["LAB duplicates the wiring of depinject.go; the routing by identifier of the wired chain is checked on the PROD stack by the matrix test"],
         "tests": [
-            {"test": "TestC05Request", "quick": 1500, "thorough": 120000},
+            {"test": "TestC05Request", "quick": 1500, "thorough": 480000},
             {"test": "TestC05Matrix", "kind": "plain", "quick": 1, "thorough": 1},
-            {"test": "TestC05Replace", "quick": 300, "thorough": 20000},
-            {"test": "TestC05Events", "quick": 400, "thorough": 40000},
+            {"test": "TestC05Replace", "quick": 300, "thorough": 80000},
+            {"test": "TestC05Events", "quick": 400, "thorough": 160000},
         ],
     },
     "C06": {
@@ -95,7 +95,7 @@ PROPERTIES = {
                 "delta and the two statistics entries equal the model; a repeated identifier => error ack with NO action call executed. "
                 "Non-trivial = >= 2 actions or a denomination change or a repeated identifier; distinct by case.",
         "assumptions": COMMON_ASSUMPTIONS + ["the swap controller is the harness's own (the chain registers none); LAB never deposits its output denom on the orbiter account"],
-        "tests": [{"test": "TestC06Orders", "quick": 1500, "thorough": 150000}],
+        "tests": [{"test": "TestC06Orders", "quick": 1500, "thorough": 600000}],
     },
     "C08": {
         "level": "exploration",
@@ -107,8 +107,8 @@ PROPERTIES = {
         "assumptions": COMMON_ASSUMPTIONS + ["an empty counterparty batch is a re-synchronisation step (the statement does not say what it means)",
                                              "counterparty ids come from the canonical and the clearly invalid region; the lenient region is C20's subject"],
         "tests": [
-            {"test": "TestC08History", "quick": 300, "thorough": 40000},
-            {"test": "TestC08RealTransactions", "quick": 60, "thorough": 3200},
+            {"test": "TestC08History", "quick": 300, "thorough": 160000},
+            {"test": "TestC08RealTransactions", "quick": 60, "thorough": 12800},
         ],
     },
     "C09": {
@@ -120,9 +120,9 @@ PROPERTIES = {
                 "Non-trivial = a probe executed while >= 1 action is paused; distinct by (paused set, probe).",
         "assumptions": COMMON_ASSUMPTIONS + ["TestC09Lab repeats the check in the LAB world where a second (denomination-changing) action controller is registered: pausing one action leaves payloads with only the other unaffected, and no call of a paused action is recorded"],
         "tests": [
-            {"test": "TestC09History", "quick": 300, "thorough": 40000},
-            {"test": "TestC09Lab", "quick": 250, "thorough": 30000},
-            {"test": "TestC09RealTransactions", "quick": 40, "thorough": 1600},
+            {"test": "TestC09History", "quick": 300, "thorough": 160000},
+            {"test": "TestC09Lab", "quick": 250, "thorough": 120000},
+            {"test": "TestC09RealTransactions", "quick": 40, "thorough": 6400},
         ],
     },
     "C18": {
@@ -134,8 +134,8 @@ PROPERTIES = {
                 "distinct by (number of updates, limit, length).",
         "assumptions": COMMON_ASSUMPTIONS + ["limits above 64 KiB are probed from below only"],
         "tests": [
-            {"test": "TestC18History", "quick": 300, "thorough": 30000},
-            {"test": "TestC18RealTransactions", "quick": 40, "thorough": 1600},
+            {"test": "TestC18History", "quick": 300, "thorough": 120000},
+            {"test": "TestC18RealTransactions", "quick": 40, "thorough": 6400},
         ],
     },
     "C11": {
@@ -147,7 +147,7 @@ PROPERTIES = {
                 "second run the deposited balance of the transferred denom ends on the dust collector and other denoms stay untouched. "
                 "Non-trivial = the transferred denom had a pre-existing balance and the base run succeeded; distinct by (deposits, transfer).",
         "assumptions": COMMON_ASSUMPTIONS,
-        "tests": [{"test": "TestC11Pairs", "quick": 2000, "thorough": 200000}],
+        "tests": [{"test": "TestC11Pairs", "quick": 2000, "thorough": 800000}],
     },
     "C12": {
         "level": "exploration",
@@ -157,8 +157,8 @@ PROPERTIES = {
                 "distinct by history.",
         "assumptions": COMMON_ASSUMPTIONS + ["stated domain bound: cumulative amount per statistics key below 2^256 (single amounts capped at 2^248)"],
         "tests": [
-            {"test": "TestC12History", "quick": 400, "thorough": 40000},
-            {"test": "TestC12Lab", "quick": 300, "thorough": 30000},
+            {"test": "TestC12History", "quick": 400, "thorough": 160000},
+            {"test": "TestC12Lab", "quick": 300, "thorough": 120000},
         ],
     },
     "C15": {
@@ -174,8 +174,8 @@ PROPERTIES = {
                 "error texts must be equal. Non-trivial = an accepted memo or a round-tripped payload; distinct by memo text.",
         "assumptions": COMMON_ASSUMPTIONS + ["repeated JSON keys are judged only by the purity clause (the statement does not say which occurrence counts)"],
         "tests": [
-            {"test": "TestC15RoundTrip", "quick": 5000, "thorough": 500000},
-            {"test": "TestC15Acceptance", "quick": 15000, "thorough": 1500000},
+            {"test": "TestC15RoundTrip", "quick": 5000, "thorough": 2000000},
+            {"test": "TestC15Acceptance", "quick": 15000, "thorough": 6000000},
         ],
     },
     "C19": {
@@ -188,8 +188,8 @@ PROPERTIES = {
                 "same seeded history set. Non-trivial = a history with >= 1 error ack and >= 1 success; distinct by history.",
         "assumptions": COMMON_ASSUMPTIONS + ["query responses are not compared byte-wise (a proto map field has no defined wire order)"],
         "tests": [
-            {"test": "TestC19InProcess", "quick": 250, "thorough": 20000},
-            {"test": "TestC19CrossProcess", "quick": 150, "thorough": 6000, "replicas": 2, "shards": 8},
+            {"test": "TestC19InProcess", "quick": 250, "thorough": 80000},
+            {"test": "TestC19CrossProcess", "quick": 150, "thorough": 24000, "replicas": 2, "shards": 8},
         ],
     },
     "C14": {
@@ -201,10 +201,10 @@ PROPERTIES = {
                 "later); distinct = by hash of the packet data / history.",
         "assumptions": COMMON_ASSUMPTIONS,
         "tests": [
-            {"test": "TestC14MutatedMemo", "quick": 6000, "thorough": 800000},
-            {"test": "TestC14Attributes", "quick": 4000, "thorough": 600000},
-            {"test": "TestC14RawPacket", "quick": 4000, "thorough": 600000},
-            {"test": "TestC14History", "quick": 300, "thorough": 32000},
+            {"test": "TestC14MutatedMemo", "quick": 6000, "thorough": 3200000},
+            {"test": "TestC14Attributes", "quick": 4000, "thorough": 2400000},
+            {"test": "TestC14RawPacket", "quick": 4000, "thorough": 2400000},
+            {"test": "TestC14History", "quick": 300, "thorough": 128000},
         ],
     },
 }
@@ -224,8 +224,8 @@ PROPERTIES["C20"] = {
             "the domain it denotes is refused. Non-trivial = an accepted CCTP/Hyperlane string or a coupled probe; distinct by (protocol, string).",
     "assumptions": COMMON_ASSUMPTIONS,
     "tests": [
-        {"test": "TestC20Unit", "quick": 50000, "thorough": 4000000},
-        {"test": "TestC20Paths", "quick": 1500, "thorough": 100000},
+        {"test": "TestC20Unit", "quick": 50000, "thorough": 16000000},
+        {"test": "TestC20Paths", "quick": 1500, "thorough": 400000},
     ],
 }
 
@@ -241,8 +241,8 @@ PROPERTIES["C16"] = {
             "Non-trivial = a denom with >= 1 hop; distinct by (denom, port, channel).",
     "assumptions": COMMON_ASSUMPTIONS,
     "tests": [
-        {"test": "TestC16Differential", "quick": 5000, "thorough": 500000},
-        {"test": "TestC16Unit", "quick": 30000, "thorough": 1000000},
+        {"test": "TestC16Differential", "quick": 5000, "thorough": 2000000},
+        {"test": "TestC16Unit", "quick": 30000, "thorough": 4000000},
     ],
 }
 
@@ -259,8 +259,8 @@ PROPERTIES["C07"] = {
             "Non-trivial = a valid ICS-20 packet or one carrying an orbiter memo; distinct by (callback, data).",
     "assumptions": COMMON_ASSUMPTIONS + ["destination channels have ibc-go's generated form channel-N (with an ill-formed one the middleware answers itself: C14 territory)"],
     "tests": [
-        {"test": "TestC07Differential", "quick": 5000, "thorough": 600000},
-        {"test": "TestC07SendPath", "quick": 1000, "thorough": 50000},
+        {"test": "TestC07Differential", "quick": 5000, "thorough": 2400000},
+        {"test": "TestC07SendPath", "quick": 1000, "thorough": 200000},
     ],
 }
 
@@ -276,7 +276,7 @@ PROPERTIES["C10"] = {
             "hit. Non-trivial = a case with a valid body; distinct by (RPC, signer, body).",
     "assumptions": COMMON_ASSUMPTIONS + ["the positive half (authority + valid body succeeds) covers the known messages; ReplaceDepositForBurn's positive half is C05's real replacement",
                                          "the authority written in another bech32 spelling is a don't-care"],
-    "tests": [{"test": "TestC10Authority", "quick": 4000, "thorough": 300000}],
+    "tests": [{"test": "TestC10Authority", "quick": 4000, "thorough": 1200000}],
 }
 
 PROPERTIES["C13"] = {
@@ -291,7 +291,7 @@ PROPERTIES["C13"] = {
             "is refused. Non-trivial = a walk with a limit below the matching set (>= 3) while foreign entries exist; distinct by (ledger, request).",
     "assumptions": COMMON_ASSUMPTIONS + ["listing order is not asserted beyond reverse being the reverse of forward and limits not changing it"],
     "tests": [
-        {"test": "TestC13Queries", "quick": 400, "thorough": 30000},
+        {"test": "TestC13Queries", "quick": 400, "thorough": 120000},
         {"test": "TestC13KnownReversePrefix", "kind": "plain", "quick": 1, "thorough": 1},
     ],
 }
@@ -308,8 +308,8 @@ PROPERTIES["C17"] = {
             "state round-trips. Non-trivial = a state with >= 2 populated collections / an accepted non-default document; distinct by genesis JSON.",
     "assumptions": COMMON_ASSUMPTIONS + ["a panic inside ValidateGenesis is not an acceptance: counted as an observation, not a violation"],
     "tests": [
-        {"test": "TestC17RoundTrip", "quick": 400, "thorough": 40000},
-        {"test": "TestC17Documents", "quick": 5000, "thorough": 500000},
-        {"test": "TestC17FreshChain", "quick": 0, "thorough": 480, "tiers": ["thorough"]},
+        {"test": "TestC17RoundTrip", "quick": 400, "thorough": 160000},
+        {"test": "TestC17Documents", "quick": 5000, "thorough": 2000000},
+        {"test": "TestC17FreshChain", "quick": 0, "thorough": 1920, "tiers": ["thorough"]},
     ],
 }
